@@ -87,10 +87,18 @@ def call(f, a):
     r = f(*a)
     return np.array(a[2] if r is None else r)
 
-def observe(c, vec, clr, inplace, ops=None, backend='default', file='m'):
+def deco(f, factor=1):
+    """user decorator of the decorator=/decorator_kwargs= stream: scales the vector field"""
+    def scaled(*a):
+        import numpy as np
+        return np.asarray(f(*a)) * factor
+    return scaled
+
+def observe(c, vec, clr, inplace, ops=None, backend='default', file='m', extra=None):
     import numpy as np
     from pyr import fracs
     kw = dict(ops=ops) if ops else {}
+    kw.update(extra or {})
     f, args, names, smap = c.get_run_func('f', 0.125, file_name=file, backend=backend, solver='euler', vectorize=vec,
                                           float_precision='float64', in_place=inplace, clear=clr, verbose=False, **kw)
     vals = [fracs(v) for v in args[3:]]              # before the call: the function writes into its buffers
@@ -115,6 +123,15 @@ def run_steps(case, fresh):
     def one(op):
         kind = op[0]
         try:
+            if kind in ("cin", "dcompile"):
+                c = build(op[1]); handles.append(c)
+                if kind == "cin":       # extrinsic input on variable r of node A: a constant array of dyadic values
+                    extra = dict(inputs={f"A/{POOL[op[1]][0][0][1]}/r": np.zeros(4) + float(Fr(op[5]))})
+                else:
+                    extra = dict(decorator=deco, decorator_kwargs=dict(factor=float(Fr(op[5]))))
+                o, fn = observe(c, op[2], op[3], op[4], extra=extra)
+                funcs.append(fn)
+                return dict(ok="compile", **o)
             if kind == "fcompile":
                 c = build(op[1]); handles.append(c)
                 o, fn = observe(c, False, op[3], False, backend='fortran', file=op[2])
@@ -213,7 +230,52 @@ def gen_case(rng, maxlen=10):
     return dict(hist=hist, final=final)
 
 def is_ops(case):
-    return any(o[0] in ("compile", "run", "jac") and o[1] in HPOOL for o in case["hist"] + [case["final"]])
+    return any((o[0] in ("compile", "run", "jac") and o[1] in HPOOL) or o[0] == "dcompile" for o in case["hist"] + [case["final"]])
+
+def is_inputs(case):
+    return any(o[0] == "cin" for o in case["hist"] + [case["final"]])
+
+IN_FINALS = ["M0", "M2", "M3", "M4"]
+def gen_inputs_case(rng):
+    """compilations with an extrinsic input on a same-named variable, one-flag clear_frontend_caches calls in between"""
+    hist, nh = [], 0
+    for _ in range(rng.randint(1, 5)):
+        r = rng.random()
+        if r < 0.45:
+            hist.append(["cin", rng.choice(MODELS), rng.random() < 0.5, rng.random() < 0.35, rng.random() < 0.3, rng.choice(["1", "3"])]); nh += 1
+        elif r < 0.55:
+            hist.append(["compile", rng.choice(MODELS), rng.random() < 0.5, rng.random() < 0.35, False]); nh += 1
+        elif r < 0.8:
+            hist.append(["cfc"] + rng.choice([[True, False], [False, True], [False, True], [True, True]]))
+        elif r < 0.9:
+            hist.append(["mclear", nh - 1 if nh else 0])
+        else:
+            hist.append(["uclear", nh - 1 if nh else 0])
+    return dict(hist=hist, final=["cin", rng.choice(IN_FINALS), rng.random() < 0.5, False, False, "3"])
+
+def inputs_directed():
+    I = lambda m, v=False, c=False, x="1": ["cin", m, v, c, False, x]
+    return [dict(hist=[], final=I(m, v, False, "3")) for m in IN_FINALS for v in (False, True)] + [
+            dict(hist=[I("M0"), ["cfc", False, True]], final=I("M3", False, False, "3")),
+            dict(hist=[I("M0"), ["cfc", True, False]], final=I("M3", False, False, "3")),
+            dict(hist=[I("M0", True), ["cfc", False, True]], final=I("M4", True, False, "3")),
+            dict(hist=[I("M0"), ["mclear", 0]], final=I("M2", False, False, "3")),
+            dict(hist=[I("M4", True), ["uclear", 0]], final=I("M4", True, False, "3")),
+            dict(hist=[I("M0", False, True)], final=I("M2", False, False, "3"))]
+
+def gen_deco_case(rng):
+    hist, nh = [], 0
+    for _ in range(rng.randint(1, 3)):
+        clr = rng.random() < 0.6
+        hist.append(["dcompile", rng.choice(["M0", "M2"]), False, clr, rng.random() < 0.3, rng.choice(["2", "3"])]); nh += 1
+        if not clr:
+            hist.append(["mclear", nh - 1])
+    return dict(hist=hist, final=["dcompile", rng.choice(["M0", "M2"]), False, False, False, rng.choice(["2", "3"])])
+
+def deco_directed():
+    D = lambda m, f, c=True: ["dcompile", m, False, c, False, f]
+    return [dict(hist=[D("M0", "2")], final=D("M0", "3", False)), dict(hist=[D("M0", "3")], final=D("M2", "2", False)),
+            dict(hist=[D("M2", "2", False), ["mclear", 0]], final=D("M2", "3", False))]
 
 def is_fortran(case):
     return any(o[0] == "fcompile" for o in case["hist"] + [case["final"]])
@@ -240,7 +302,7 @@ def disciplined_py(case):
     """syntactic guard of the ops= stream: every compile/run asks for clear=True or is directly followed by circuit.clear() on it"""
     nh, h = 0, case["hist"]
     for i, o in enumerate(h):
-        if o[0] in ("compile", "run", "jac", "yload"):
+        if o[0] in ("compile", "run", "jac", "dcompile", "yload"):
             nh += 1
             if not o[3] and not (i + 1 < len(h) and h[i + 1] == ["mclear", nh - 1]):
                 return False
@@ -271,7 +333,7 @@ def all_finals():
 def overlap(case):
     """non-triviality: an earlier compilation shares the file name (always 'm') and a node label / operator name / structural
     class with the final model — every pool model has a node `A` — so: history contains >= 1 compile/run/yload step"""
-    return any(o[0] in ("compile", "run", "jac", "fcompile", "yload") for o in case["hist"])
+    return any(o[0] in ("compile", "run", "jac", "cin", "dcompile", "fcompile", "yload") for o in case["hist"])
 
 # ---------------------------------------------------------------------------------------------- model side
 def header():
@@ -307,6 +369,8 @@ def coq_hop(op):
     k = op[0]
     if k in ("compile", "run", "jac"):
         return f"({dict(compile='Compile', run='Run', jac='Jac')[k]} {op[1]} {cbool(op[2])} {cbool(op[3])} {cbool(op[4])})"
+    if k == "cin":
+        return f"(CompileIn {op[1]} {cbool(op[2])} {cbool(op[3])} {cbool(op[4])})"
     if k == "fcompile":
         return f"(FCompile {op[1]} {cstr(op[2])} {cbool(op[3])})"
     if k == "yload":
@@ -321,17 +385,19 @@ def coq_hop(op):
         return f"(CFC {cbool(op[1])} {cbool(op[2])})"
     raise ValueError(k)
 
-def abstract(final):
+def abstract(final, kind=None):
     """projection of the real observable onto what the model predicts"""
     if "err" in final:
         return f"(OErr {cstr(final['err'])})"
+    if kind == "cin":         # the model does not predict the observable of a compilation with inputs, only that it compiles
+        return "OAck"
     kv = [clist([cq(x) for x in v]) for n, v in zip(final["names"], final["vals"]) if n.endswith("/k")]
     sm = [f"({cstr(k)}, {cnat(a)}, {cnat(b)})" for k, (a, b) in final["smap"]]
     return f"(OOk {clist([cstr(n) for n in final['names']])} {clist(kv)} {clist(sm)} {clist([cq(x) for x in final['dy']])})"
 
 def coq_case(case, out):
     return (f"({clist([coq_hop(o) for o in case['hist']])}, {coq_hop(case['final'])}, "
-            f"{clist([cstr(t) for t in out['trace']])}, {abstract(out['final'])})")
+            f"{clist([cstr(t) for t in out['trace']])}, {abstract(out['final'], case['final'][0])})")
 
 def model_compare(ctx, cases, outs, tag):
     """index lists: real != Impl (history model), real != Spec (fresh-state model), guards CachesClean / TemplateClean / FortranClean false"""
@@ -389,9 +455,14 @@ def evaluate(ctx, cases, tag):
         if is_ops(cases[i]) and not disciplined_py(cases[i]):
             guard_viol[i] = ["CachesClean"]
     good = good_all
+    # compilations with inputs: the model only carries the counters; where it does not reproduce which steps raise, its guard
+    # cannot be trusted for that history: counted as unmodelled, not judged
+    unmodelled = [i for i in badI if is_inputs(cases[i])]
+    badI = [i for i in badI if i not in unmodelled]; badS = [i for i in badS if i not in unmodelled]
+    good = [i for i in good if i not in unmodelled]
     leak = [i for i in good if differs(outs[i], fresh[canon(cases[i]["final"])])]
     fresh_bad = [k for k, v in fresh.items() if "err" in v and v["err"] == "fresh-interpreter-failed"]
-    return dict(outs=outs, crashed=crashed, fresh=fresh, badI=badI, badS=sorted(set(badS) | set(leak)), leak=leak,
+    return dict(unmodelled=unmodelled, outs=outs, crashed=crashed, fresh=fresh, badI=badI, badS=sorted(set(badS) | set(leak)), leak=leak,
                 guard_viol=guard_viol, fresh_bad=fresh_bad)
 
 def shrink(ctx, case):
@@ -424,7 +495,9 @@ def check(ctx):
         fort = [] if ctx.tier == "quick" else [dict(hist=[], final=["fcompile", m, "m", False]) for m in FMODELS] + \
                [gen_fortran_case(ctx.rng) for _ in range(24)]
         cases = ([dict(hist=c["hist"], final=c["final"]) for c in corpus] + [dict(hist=[], final=f) for f in all_finals()] + fort +
-                 [gen_case(ctx.rng) for _ in range(n)] + ops_directed() + [gen_ops_case(ctx.rng) for _ in range(6 if ctx.tier == "quick" else 80)])
+                 [gen_case(ctx.rng) for _ in range(n)] + ops_directed() + [gen_ops_case(ctx.rng) for _ in range(6 if ctx.tier == "quick" else 80)] +
+                 deco_directed() + [gen_deco_case(ctx.rng) for _ in range(4 if ctx.tier == "quick" else 40)] +
+                 inputs_directed() + [gen_inputs_case(ctx.rng) for _ in range(16 if ctx.tier == "quick" else 200)])
     ev = evaluate(ctx, cases, "main")
     outs, gv = ev["outs"], ev["guard_viol"]
     if ev["fresh_bad"]:
@@ -450,6 +523,17 @@ def check(ctx):
              guard_viol=gv, show=show, shrink=lambda c: shrink(ctx, c), witness_check=witness_check,
              spec_name="Caches.obs_of G0 (the same model compiled first in a fresh process; fresh interpreter = reference)",
              impl_name="Caches.step/run_hist (cache state machine)")
+    # the cache state machine has been exact on every history, also outside the guards: a disagreement there means the model no
+    # longer describes what the code does with its caches (e.g. a clearing call that resets other components than before)
+    strict = [i for i in ev["badI"] if i in gv and i not in ev["crashed"]]
+    if strict and not ctx.violations:
+        i = strict[0]
+        violation(ctx, write_replay(ctx, "correspondence", dict(
+            broken="correspondence outside the guards: the real code no longer does with its caches what Caches.step says "
+                   "(the history is guard-violating, so the result may differ from a fresh process, but not in another way than modelled)",
+            case=cases[i], implementation_output=outs[i], cases_affected=len(strict), diagnostic=show(cases[i]))))
+    ctx.note(f"streams: inputs= {sum(1 for c in cases if is_inputs(c))} (unmodelled there: {len(ev['unmodelled'])}), decorator= "
+             f"{sum(1 for c in cases if any(o[0] == 'dcompile' for o in c['hist'] + [c['final']]))}; model mismatches outside the guards: {len(strict)}")
     nt = {canon(c) for c in cases if overlap(c)}
     kinds = {}
     for c in cases:
@@ -468,10 +552,12 @@ def check(ctx):
                         "get_run_func; from_yaml+update_var; circuit.clear(); pyrates.clear(circuit); clear_frontend_caches(tc, ic)) over a pool of 7 "
                         "models (same operator name with another equation / another default, same structure under another operator name, two "
                         "templates with one name, 1/2/3 nodes) run in one process without reset, final model compared with a fresh interpreter; "
-                        "plus a real-code-only stream of disciplined histories over three models whose equation calls a helper passed through ops= (same "
-                        "function text, different helper definitions); non-trivial = the history contains >= 1 earlier compilation (it shares the file name and the node label `A`, mostly also "
+                        "plus real-code-only streams of disciplined histories: models whose equation calls a helper passed through ops= (same "
+                        "function text, different helper definitions) and compilations with one decorator and different decorator_kwargs; plus an inputs= "
+                        "stream (extrinsic input on a same-named variable, one-flag clear_frontend_caches calls; guard from the model's counters); non-trivial = the history contains >= 1 earlier compilation (it shares the file name and the node label `A`, mostly also "
                         "the operator name or the structural class, with the final model); distinct = distinct canonical JSON",
-                   samples=[c for c in cases if overlap(c)][:3], extra=dict(fixed_clear=fixed_clear(), input_distribution=dict(hist, ops_stream=sum(1 for c in cases if is_ops(c)),
+                   samples=[c for c in cases if overlap(c)][:3], extra=dict(fixed_clear=fixed_clear(), input_distribution=dict(hist, ops_stream=sum(1 for c in cases if is_ops(c)), inputs_stream=sum(1 for c in cases if is_inputs(c)),
+                                                           inputs_unmodelled=len(ev["unmodelled"]),
                                                            fortran_stream=sum(1 for c in cases if is_fortran(c))),
                             impl_vs_model_mismatches=len(ev["badI"]), result_differs_from_fresh=len(ev["leak"])),
                    trusted_base=["the fresh interpreter (subprocess, PYTHONPATH=REPO, own cwd) is the reference for 'first model handled by the process'",
